@@ -373,6 +373,12 @@ z_dispatch:
     else { call PollFuture(OpTab[bcur].f, NoW); goto z_polled; }
   }
   else if (K(bcur) = "wait_sync") { call WaitSync(OpTab[bcur].f, bcur); goto rb_step; }
+  else if (K(bcur) = "block_on") {
+    \* the harness thread waits for an external event (used to order operations of different threads)
+    rv[self] := 0;
+    if (OpTab[bcur].g \in gfired) { goto rb_step; }
+    else { gthreads[OpTab[bcur].g] := gthreads[OpTab[bcur].g] \cup {self}; goto rb_wait; }
+  }
   else if (K(bcur) = "set_max") { goto mx_set; }
   else if (K(bcur) = "despawn") { call Despawn(); goto rb_step; }
   else { rv[self] := 0; goto rb_step; };
@@ -387,6 +393,11 @@ pp_setdepth: \* [pcore]
   ppDepth[OpTab[bcur].p] := OpTab[bcur].n;
   rv[self] := 0;
   goto rb_step;
+rb_wait:     \* [park]
+  await parkTok[self];
+  parkTok[self] := FALSE;
+  if (OpTab[bcur].g \in gfired) { goto rb_step; }
+  else { gthreads[OpTab[bcur].g] := gthreads[OpTab[bcur].g] \cup {self}; goto rb_wait; };
 mx_set:      \* [maxt] verif_set_max_threads
   maxThreads := OpTab[bcur].n;
   h := ObsSetMax(h, OpTab[bcur].n);
@@ -2003,12 +2014,12 @@ z_dispatch(self) == /\ pc[self] = "z_dispatch"
                                                                            sj        |->  sj[self] ] >>
                                                                        \o stack[self]]
                                /\ pc' = [pc EXCEPT ![self] = "sj_push"]
-                               /\ UNCHANGED << gfired, gwaker, parkTok, rv, 
-                                               strong, inItems, inClosed, 
-                                               inWaker, h, ww, bw, yq, yop, tq, 
-                                               top, af, wf, wop, sf, sctx, xf, 
-                                               cop, np, nbp, dp, pf, pctx, pq, 
-                                               pj, pd >>
+                               /\ UNCHANGED << gfired, gwaker, gthreads, 
+                                               parkTok, rv, strong, inItems, 
+                                               inClosed, inWaker, h, ww, bw, 
+                                               yq, yop, tq, top, af, wf, wop, 
+                                               sf, sctx, xf, cop, np, nbp, dp, 
+                                               pf, pctx, pq, pj, pd >>
                           ELSE /\ IF K(bcur[self]) = "sync"
                                      THEN /\ /\ stack' = [stack EXCEPT ![self] = << [ procedure |->  "Sync",
                                                                                       pc        |->  "rb_step",
@@ -2019,14 +2030,14 @@ z_dispatch(self) == /\ pc[self] = "z_dispatch"
                                              /\ yq' = [yq EXCEPT ![self] = O(bcur[self])]
                                           /\ pc' = [pc EXCEPT ![self] = "sy_decide"]
                                           /\ UNCHANGED << jkind, gfired, 
-                                                          gwaker, parkTok, rv, 
-                                                          strong, inItems, 
-                                                          inClosed, inWaker, h, 
-                                                          sq, sj, ww, bw, tq, 
-                                                          top, af, wf, wop, sf, 
-                                                          sctx, xf, cop, np, 
-                                                          nbp, dp, pf, pctx, 
-                                                          pq, pj, pd >>
+                                                          gwaker, gthreads, 
+                                                          parkTok, rv, strong, 
+                                                          inItems, inClosed, 
+                                                          inWaker, h, sq, sj, 
+                                                          ww, bw, tq, top, af, 
+                                                          wf, wop, sf, sctx, 
+                                                          xf, cop, np, nbp, dp, 
+                                                          pf, pctx, pq, pj, pd >>
                                      ELSE /\ IF K(bcur[self]) = "drop_obj"
                                                 THEN /\ strong' = [strong EXCEPT ![O(bcur[self])] = strong[O(bcur[self])] - 1]
                                                      /\ IF strong'[O(bcur[self])] = 1 - 1
@@ -2047,6 +2058,7 @@ z_dispatch(self) == /\ pc[self] = "z_dispatch"
                                                      /\ UNCHANGED << jkind, 
                                                                      gfired, 
                                                                      gwaker, 
+                                                                     gthreads, 
                                                                      parkTok, 
                                                                      inItems, 
                                                                      inClosed, 
@@ -2072,6 +2084,7 @@ z_dispatch(self) == /\ pc[self] = "z_dispatch"
                                                                 /\ UNCHANGED << jkind, 
                                                                                 gfired, 
                                                                                 gwaker, 
+                                                                                gthreads, 
                                                                                 parkTok, 
                                                                                 rv, 
                                                                                 inItems, 
@@ -2121,6 +2134,7 @@ z_dispatch(self) == /\ pc[self] = "z_dispatch"
                                                                            /\ UNCHANGED << jkind, 
                                                                                            gfired, 
                                                                                            gwaker, 
+                                                                                           gthreads, 
                                                                                            parkTok, 
                                                                                            sq, 
                                                                                            sj, 
@@ -2152,6 +2166,7 @@ z_dispatch(self) == /\ pc[self] = "z_dispatch"
                                                                                       /\ UNCHANGED << jkind, 
                                                                                                       gfired, 
                                                                                                       gwaker, 
+                                                                                                      gthreads, 
                                                                                                       parkTok, 
                                                                                                       rv, 
                                                                                                       h, 
@@ -2184,6 +2199,7 @@ z_dispatch(self) == /\ pc[self] = "z_dispatch"
                                                                                                  /\ UNCHANGED << jkind, 
                                                                                                                  gfired, 
                                                                                                                  gwaker, 
+                                                                                                                 gthreads, 
                                                                                                                  parkTok, 
                                                                                                                  rv, 
                                                                                                                  sq, 
@@ -2208,6 +2224,7 @@ z_dispatch(self) == /\ pc[self] = "z_dispatch"
                                                                                                             /\ UNCHANGED << jkind, 
                                                                                                                             gfired, 
                                                                                                                             gwaker, 
+                                                                                                                            gthreads, 
                                                                                                                             parkTok, 
                                                                                                                             rv, 
                                                                                                                             h, 
@@ -2241,6 +2258,7 @@ z_dispatch(self) == /\ pc[self] = "z_dispatch"
                                                                                                                        /\ UNCHANGED << jkind, 
                                                                                                                                        gfired, 
                                                                                                                                        gwaker, 
+                                                                                                                                       gthreads, 
                                                                                                                                        parkTok, 
                                                                                                                                        rv, 
                                                                                                                                        h, 
@@ -2271,6 +2289,7 @@ z_dispatch(self) == /\ pc[self] = "z_dispatch"
                                                                                                                                   /\ pc' = [pc EXCEPT ![self] = "sj_push"]
                                                                                                                                   /\ UNCHANGED << gfired, 
                                                                                                                                                   gwaker, 
+                                                                                                                                                  gthreads, 
                                                                                                                                                   parkTok, 
                                                                                                                                                   rv, 
                                                                                                                                                   h, 
@@ -2299,6 +2318,7 @@ z_dispatch(self) == /\ pc[self] = "z_dispatch"
                                                                                                                                              /\ pc' = [pc EXCEPT ![self] = "sj_push"]
                                                                                                                                              /\ UNCHANGED << gfired, 
                                                                                                                                                              gwaker, 
+                                                                                                                                                             gthreads, 
                                                                                                                                                              parkTok, 
                                                                                                                                                              rv, 
                                                                                                                                                              h, 
@@ -2327,6 +2347,7 @@ z_dispatch(self) == /\ pc[self] = "z_dispatch"
                                                                                                                                                         /\ pc' = [pc EXCEPT ![self] = "sj_push"]
                                                                                                                                                         /\ UNCHANGED << gfired, 
                                                                                                                                                                         gwaker, 
+                                                                                                                                                                        gthreads, 
                                                                                                                                                                         parkTok, 
                                                                                                                                                                         rv, 
                                                                                                                                                                         h, 
@@ -2352,6 +2373,7 @@ z_dispatch(self) == /\ pc[self] = "z_dispatch"
                                                                                                                                                                    /\ pc' = [pc EXCEPT ![self] = "z_df"]
                                                                                                                                                                    /\ UNCHANGED << gfired, 
                                                                                                                                                                                    gwaker, 
+                                                                                                                                                                                   gthreads, 
                                                                                                                                                                                    parkTok, 
                                                                                                                                                                                    rv, 
                                                                                                                                                                                    h, 
@@ -2384,7 +2406,8 @@ z_dispatch(self) == /\ pc[self] = "z_dispatch"
                                                                                                                                                                                     ELSE /\ pc' = [pc EXCEPT ![self] = "rb_step"]
                                                                                                                                                                                          /\ UNCHANGED << stack, 
                                                                                                                                                                                                          ww >>
-                                                                                                                                                                              /\ UNCHANGED << af, 
+                                                                                                                                                                              /\ UNCHANGED << gthreads, 
+                                                                                                                                                                                              af, 
                                                                                                                                                                                               wf, 
                                                                                                                                                                                               wop, 
                                                                                                                                                                                               sf, 
@@ -2401,7 +2424,8 @@ z_dispatch(self) == /\ pc[self] = "z_dispatch"
                                                                                                                                                                                                                                      af        |->  af[self] ] >>
                                                                                                                                                                                                                                  \o stack[self]]
                                                                                                                                                                                          /\ pc' = [pc EXCEPT ![self] = "z_aw_poll"]
-                                                                                                                                                                                         /\ UNCHANGED << rv, 
+                                                                                                                                                                                         /\ UNCHANGED << gthreads, 
+                                                                                                                                                                                                         rv, 
                                                                                                                                                                                                          wf, 
                                                                                                                                                                                                          wop, 
                                                                                                                                                                                                          sf, 
@@ -2442,7 +2466,8 @@ z_dispatch(self) == /\ pc[self] = "z_dispatch"
                                                                                                                                                                                                                /\ pc' = [pc EXCEPT ![self] = "pf_decide"]
                                                                                                                                                                                                                /\ UNCHANGED << sf, 
                                                                                                                                                                                                                                sctx >>
-                                                                                                                                                                                                    /\ UNCHANGED << rv, 
+                                                                                                                                                                                                    /\ UNCHANGED << gthreads, 
+                                                                                                                                                                                                                    rv, 
                                                                                                                                                                                                                     wf, 
                                                                                                                                                                                                                     wop >>
                                                                                                                                                                                                ELSE /\ IF K(bcur[self]) = "wait_sync"
@@ -2454,20 +2479,30 @@ z_dispatch(self) == /\ pc[self] = "z_dispatch"
                                                                                                                                                                                                                   /\ wf' = [wf EXCEPT ![self] = OpTab[bcur[self]].f]
                                                                                                                                                                                                                   /\ wop' = [wop EXCEPT ![self] = bcur[self]]
                                                                                                                                                                                                                /\ pc' = [pc EXCEPT ![self] = "fs_take"]
-                                                                                                                                                                                                               /\ rv' = rv
-                                                                                                                                                                                                          ELSE /\ IF K(bcur[self]) = "set_max"
-                                                                                                                                                                                                                     THEN /\ pc' = [pc EXCEPT ![self] = "mx_set"]
-                                                                                                                                                                                                                          /\ UNCHANGED << rv, 
-                                                                                                                                                                                                                                          stack >>
-                                                                                                                                                                                                                     ELSE /\ IF K(bcur[self]) = "despawn"
-                                                                                                                                                                                                                                THEN /\ stack' = [stack EXCEPT ![self] = << [ procedure |->  "Despawn",
-                                                                                                                                                                                                                                                                              pc        |->  "rb_step" ] >>
-                                                                                                                                                                                                                                                                          \o stack[self]]
-                                                                                                                                                                                                                                     /\ pc' = [pc EXCEPT ![self] = "ds_max"]
-                                                                                                                                                                                                                                     /\ rv' = rv
-                                                                                                                                                                                                                                ELSE /\ rv' = [rv EXCEPT ![self] = 0]
-                                                                                                                                                                                                                                     /\ pc' = [pc EXCEPT ![self] = "rb_step"]
-                                                                                                                                                                                                                                     /\ stack' = stack
+                                                                                                                                                                                                               /\ UNCHANGED << gthreads, 
+                                                                                                                                                                                                                               rv >>
+                                                                                                                                                                                                          ELSE /\ IF K(bcur[self]) = "block_on"
+                                                                                                                                                                                                                     THEN /\ rv' = [rv EXCEPT ![self] = 0]
+                                                                                                                                                                                                                          /\ IF OpTab[bcur[self]].g \in gfired
+                                                                                                                                                                                                                                THEN /\ pc' = [pc EXCEPT ![self] = "rb_step"]
+                                                                                                                                                                                                                                     /\ UNCHANGED gthreads
+                                                                                                                                                                                                                                ELSE /\ gthreads' = [gthreads EXCEPT ![OpTab[bcur[self]].g] = gthreads[OpTab[bcur[self]].g] \cup {self}]
+                                                                                                                                                                                                                                     /\ pc' = [pc EXCEPT ![self] = "rb_wait"]
+                                                                                                                                                                                                                          /\ stack' = stack
+                                                                                                                                                                                                                     ELSE /\ IF K(bcur[self]) = "set_max"
+                                                                                                                                                                                                                                THEN /\ pc' = [pc EXCEPT ![self] = "mx_set"]
+                                                                                                                                                                                                                                     /\ UNCHANGED << rv, 
+                                                                                                                                                                                                                                                     stack >>
+                                                                                                                                                                                                                                ELSE /\ IF K(bcur[self]) = "despawn"
+                                                                                                                                                                                                                                           THEN /\ stack' = [stack EXCEPT ![self] = << [ procedure |->  "Despawn",
+                                                                                                                                                                                                                                                                                         pc        |->  "rb_step" ] >>
+                                                                                                                                                                                                                                                                                     \o stack[self]]
+                                                                                                                                                                                                                                                /\ pc' = [pc EXCEPT ![self] = "ds_max"]
+                                                                                                                                                                                                                                                /\ rv' = rv
+                                                                                                                                                                                                                                           ELSE /\ rv' = [rv EXCEPT ![self] = 0]
+                                                                                                                                                                                                                                                /\ pc' = [pc EXCEPT ![self] = "rb_step"]
+                                                                                                                                                                                                                                                /\ stack' = stack
+                                                                                                                                                                                                                          /\ UNCHANGED gthreads
                                                                                                                                                                                                                /\ UNCHANGED << wf, 
                                                                                                                                                                                                                                wop >>
                                                                                                                                                                                                     /\ UNCHANGED << sf, 
@@ -2502,16 +2537,16 @@ z_dispatch(self) == /\ pc[self] = "z_dispatch"
                     /\ UNCHANGED << qstate, qpoll, jobs, wakeBlocked, schedule, 
                                     pthreads, nspawned, palive, busy, 
                                     busyLocked, inbox, chanOpen, pfin, thrHeld, 
-                                    maxThreads, jaw, fres, fwaker, gthreads, 
-                                    dwSt, dwW, dblTaken, dblW1, dblW2, nextDW, 
-                                    ready, cwait, cnotif, cvHeld, sdres, 
-                                    jpanic, sfst, slotSt, qrSent, qrWaker, 
-                                    dnState, dnWaker, rwb, rneed, dsl, atomic, 
-                                    ppPending, ppClosed, ppNotify, ppNC, ppBP, 
-                                    ppDepth, ppAlive, ppHeld, pollFn, chuteFn, 
-                                    pwTaken, nextPoll, ppItem, dead, sti, rq, 
-                                    rsq, bown, bwk, bi, bcur, jq, jj, jwk, fj, 
-                                    dq, dj, oq, oop, omode, oj, kj, pp, nq >>
+                                    maxThreads, jaw, fres, fwaker, dwSt, dwW, 
+                                    dblTaken, dblW1, dblW2, nextDW, ready, 
+                                    cwait, cnotif, cvHeld, sdres, jpanic, sfst, 
+                                    slotSt, qrSent, qrWaker, dnState, dnWaker, 
+                                    rwb, rneed, dsl, atomic, ppPending, 
+                                    ppClosed, ppNotify, ppNC, ppBP, ppDepth, 
+                                    ppAlive, ppHeld, pollFn, chuteFn, pwTaken, 
+                                    nextPoll, ppItem, dead, sti, rq, rsq, bown, 
+                                    bwk, bi, bcur, jq, jj, jwk, fj, dq, dj, oq, 
+                                    oop, omode, oj, kj, pp, nq >>
 
 z_then(self) == /\ pc[self] = "z_then"
                 /\ IF rv[self] = 0 /\ OpTab[bcur[self]].then = "await"
@@ -2596,6 +2631,31 @@ pp_setdepth(self) == /\ pc[self] = "pp_setdepth"
                                      top, af, wf, wop, sf, sctx, xf, cop, kj, 
                                      pp, np, nbp, dp, pf, pctx, pq, pj, pd, nq >>
 
+rb_wait(self) == /\ pc[self] = "rb_wait"
+                 /\ parkTok[self]
+                 /\ parkTok' = [parkTok EXCEPT ![self] = FALSE]
+                 /\ IF OpTab[bcur[self]].g \in gfired
+                       THEN /\ pc' = [pc EXCEPT ![self] = "rb_step"]
+                            /\ UNCHANGED gthreads
+                       ELSE /\ gthreads' = [gthreads EXCEPT ![OpTab[bcur[self]].g] = gthreads[OpTab[bcur[self]].g] \cup {self}]
+                            /\ pc' = [pc EXCEPT ![self] = "rb_wait"]
+                 /\ UNCHANGED << qstate, qpoll, jobs, wakeBlocked, schedule, 
+                                 pthreads, nspawned, palive, busy, busyLocked, 
+                                 inbox, chanOpen, pfin, thrHeld, maxThreads, 
+                                 jkind, jaw, fres, fwaker, gfired, gwaker, 
+                                 dwSt, dwW, dblTaken, dblW1, dblW2, nextDW, 
+                                 ready, cwait, cnotif, cvHeld, sdres, jpanic, 
+                                 sfst, slotSt, qrSent, qrWaker, dnState, 
+                                 dnWaker, rv, rwb, rneed, dsl, atomic, strong, 
+                                 ppPending, ppClosed, ppNotify, ppNC, ppBP, 
+                                 ppDepth, ppAlive, ppHeld, inItems, inClosed, 
+                                 inWaker, pollFn, chuteFn, pwTaken, nextPoll, 
+                                 ppItem, h, stack, dead, sti, rq, sq, sj, ww, 
+                                 rsq, bown, bwk, bi, bcur, bw, jq, jj, jwk, fj, 
+                                 dq, dj, oq, oop, omode, oj, yq, yop, tq, top, 
+                                 af, wf, wop, sf, sctx, xf, cop, kj, pp, np, 
+                                 nbp, dp, pf, pctx, pq, pj, pd, nq >>
+
 mx_set(self) == /\ pc[self] = "mx_set"
                 /\ maxThreads' = OpTab[bcur[self]].n
                 /\ h' = ObsSetMax(h, OpTab[bcur[self]].n)
@@ -2621,7 +2681,7 @@ mx_set(self) == /\ pc[self] = "mx_set"
 RunOps(self) == rb_step(self) \/ z_finish(self) \/ z_pollaw(self)
                    \/ z_pollaw_after(self) \/ rb_block(self)
                    \/ z_dispatch(self) \/ z_then(self) \/ z_polled(self)
-                   \/ pp_setdepth(self) \/ mx_set(self)
+                   \/ pp_setdepth(self) \/ rb_wait(self) \/ mx_set(self)
 
 z_rj(self) == /\ pc[self] = "z_rj"
               /\ IF K(jj[self]) \in {"desync", "sync", "try_sync"}
@@ -3654,7 +3714,7 @@ ro_park(self) == /\ pc[self] = "ro_park"
                                                                     \o stack[self]]
                             /\ pc' = [pc EXCEPT ![self] = "z_rj"]
                        ELSE /\ Assert(qstate[oq[self]] = "Running", 
-                                      "Failure of assertion at line 556, column 5.")
+                                      "Failure of assertion at line 567, column 5.")
                             /\ qstate' = [qstate EXCEPT ![oq[self]] = "WaitingForUnpark"]
                             /\ pc' = [pc EXCEPT ![self] = "ro_check"]
                             /\ UNCHANGED << stack, jq, jj, jwk >>
@@ -3688,7 +3748,7 @@ ro_check(self) == /\ pc[self] = "ro_check"
                                                                      \o stack[self]]
                              /\ pc' = [pc EXCEPT ![self] = "z_rj"]
                         ELSE /\ Assert(qstate[oq[self]] = "WaitingForUnpark", 
-                                       "Failure of assertion at line 563, column 12.")
+                                       "Failure of assertion at line 574, column 12.")
                              /\ pc' = [pc EXCEPT ![self] = "ro_parked"]
                              /\ UNCHANGED << stack, jq, jj, jwk >>
                   /\ UNCHANGED << qstate, qpoll, jobs, wakeBlocked, schedule, 
